@@ -67,6 +67,7 @@ class Contract:
         self.modifies = d.get('modifies')
         self.returns = d.get('returns')
         self.pure = bool(d.get('pure', False))
+        self.assume_at_call = tuple(d.get('assume_at_call', ()))
         self.inline = bool(d.get('inline', False))
         self.frame_on_raise = bool(d.get('frame_on_raise', True))
         self.allowed = tuple(resolve_exception(x) if isinstance(x, str) else x for x in d.get('allowed', ()))
@@ -145,6 +146,12 @@ def model_classes() -> Dict[str, type]:
     out['Database'] = D.Database
     out['PyDBMLParser'] = P.PyDBMLParser
     out['PyDBML'] = P.PyDBML
+    from pydbml.renderer.sql.default import DefaultSQLRenderer
+    from pydbml.renderer.dbml.default import DefaultDBMLRenderer
+    from pydbml.renderer.base import BaseRenderer
+    out['DefaultSQLRenderer'] = DefaultSQLRenderer
+    out['DefaultDBMLRenderer'] = DefaultDBMLRenderer
+    out['BaseRenderer'] = BaseRenderer
     for n, c in vars(BP).items():
         if inspect.isclass(c) and c.__module__ == BP.__name__:
             out[n] = c
@@ -306,15 +313,17 @@ def apply_contract(ip: Interp, con: Contract, fn, args, kwargs, bound_cls) -> SV
     else:
         # no declared result type: an arbitrary value, constrained only by the postconditions
         res = SV('val', st.fresh('res', Val), T=('any',))
-    # 5. postconditions are assumed
-    if con.ensures:
+    # 5. postconditions are assumed (when the result is given exactly by `returns`, only the
+    #    clauses listed in `assume_at_call` add anything)
+    ens = con.ensures if con.returns is None else [(n, f) for n, f in con.ensures if n in con.assume_at_call]
+    if ens:
         saved = ip.old_heap
         ip.old_heap = pre_heap
         try:
             l2 = dict(locs)
             l2['result'] = res
-            for name, f in con.ensures:
-                st.assume(eval_clause(ip, f, l2, 'assume'))
+            for name, f in ens:
+                st.fact(eval_clause(ip, f, l2, 'assume'))
         finally:
             ip.old_heap = saved
     return res
@@ -536,6 +545,7 @@ def verify_function(target: str, only: Optional[str] = None, timeout_ms: Optiona
         st.fact(z3.Int('nowhere!') >= st.alloc0 + 1000000)
         pre_heap = dict(st.heap)
         pre_nalloc = st.nalloc
+        base_pc = list(st.pc)
         # raises conditions are evaluated in the pre-state, once
         frame0 = Frame(fn.__globals__, dict(params), None, target, klass)
 
@@ -607,7 +617,7 @@ def verify_function(target: str, only: Optional[str] = None, timeout_ms: Optiona
 
         def lemmas_thunk():
             if 'v' not in lemma_box:
-                lemma_box['v'] = congruence_lemmas(ip, shared)
+                lemma_box['v'] = congruence_lemmas(ip, shared, base_pc)
             return lemma_box['v']
         discharge(res, obligations, timeout_ms or con.timeout_ms, only, lemmas_thunk, small_scope=bound is not None)
     except Unsupported as u:
@@ -649,7 +659,7 @@ def subclauses(sub: Interp, f, argvals) -> List[Tuple[str, List[Any], Any]]:
     return out
 
 
-def congruence_lemmas(ip: Interp, shared) -> List[Any]:
+def congruence_lemmas(ip: Interp, shared, base_pc=()) -> List[Any]:
     """Equalities between comprehension abstractions proved elementwise (Map/Join congruence)."""
     info: Dict[int, Any] = shared.get('comp_info', {})
     lemmas = []
@@ -674,18 +684,29 @@ def congruence_lemmas(ip: Interp, shared) -> List[Any]:
             s = mk_solver(800)
             rng = z3.And(0 <= K, K < ca.length)
             s.add(rng)
+            # valid under the function's precondition (part of every path condition)
+            s.add(*base_pc)
             if ca.noraise is not None:
                 s.add(ca.noraise)
             if cb.noraise is not None:
                 s.add(z3.substitute(cb.noraise, (cb.K, K)))
-            s.add(z3.Not(z3.And(ca.cond == cb_cond, z3.Implies(ca.cond, ca.val.e == cb_val))))
-            if s.check() == z3.unsat:
+            goal = z3.Not(z3.And(ca.cond == cb_cond, z3.Implies(ca.cond, ca.val.e == cb_val)))
+            s.add(goal)
+            r = s.check()
+            if r == z3.unknown:
+                ab = abstract_hard(list(s.assertions()))
+                if ab is not None:
+                    s = mk_solver(800)
+                    s.add(*ab)
+                    r = s.check()
+            if r == z3.unsat:
                 if [x.get_id() for x in ca.ctx] != [x.get_id() for x in cb.ctx]:
                     continue
                 lemmas.append(ip.ccnt(ca) == ip.ccnt(cb))
                 sep = z3.String('sep!c')
                 lemmas.append(z3.ForAll([sep], ip.cjoin(ca, sep) == ip.cjoin(cb, sep)))
                 lemmas.append(ip.csum(ca) == ip.csum(cb))
+                lemmas.append(ip.ctok(ca) == ip.ctok(cb))
     return lemmas
 
 
@@ -788,6 +809,36 @@ def seed_terms(formulas, limit=400):
     return out
 
 
+def abstract_hard(formulas):
+    """Replace every str.replace_all(...) subterm by a fresh constant (one per distinct term).
+    Sound for refuting satisfiability: a model of the original formulas gives a model of the
+    abstraction, so `unsat` carries over.  Used when the sequence solver reports incompleteness."""
+    found = {}
+    seen = set()
+
+    def walk(e):
+        i = e.get_id()
+        if i in seen:
+            return
+        seen.add(i)
+        if z3.is_quantifier(e):
+            walk(e.body())
+            return
+        if not z3.is_app(e):
+            return
+        if e.decl().kind() == z3.Z3_OP_SEQ_REPLACE_ALL and not has_var(e):
+            found[i] = e
+            return
+        for c in e.children():
+            walk(c)
+    for f in formulas:
+        walk(f)
+    if not found:
+        return None
+    pairs = [(t, z3.String(f'abs!{k}')) for k, t in enumerate(found.values())]
+    return [z3.substitute(f, *pairs) for f in formulas]
+
+
 def scope_bounds(formulas, bound=2):
     """length terms (select L_len / D_n arrays at ground indices) bounded by `bound`."""
     out = {}
@@ -878,6 +929,14 @@ def discharge(res: FnResult, obligations: List[Obligation], timeout_ms: int, onl
                     s.set('timeout', min(timeout_ms, 3000))
                     s.add(*seeds)
                     r = s.check()
+                    res.nqueries += 1
+            if r == z3.unknown:
+                ab = abstract_hard(list(ob.pc) + list(lemmas if not callable(lemmas) else []) + [z3.Not(ob.goal)])
+                if ab is not None:
+                    s3 = mk_solver(min(timeout_ms, 3000))
+                    s3.add(*ab)
+                    if s3.check() == z3.unsat:
+                        r = z3.unsat
                     res.nqueries += 1
             if r == z3.unknown and small_scope:
                 # few quantifiers are left in small-scope mode: model-based instantiation can decide
